@@ -185,6 +185,14 @@ class Config:
         return '%s_N%d_M%d_A%s_%s_%s_%s_%s%s' % (self.fl, self.N, self.M, self.abits, self.std.replace('+', 'p'), self.cxx.replace('+', 'p'),
                                                  'nd' if self.ndebug else 'dbg', re.sub(r'\W', '', self.st), ''.join('_' + re.sub(r'\W', '', e) for e in self.extra))
 
+    @staticmethod
+    def from_key(k):
+        m = re.match(r'^([A-Za-z]+)_N(\d+)_M(\d+)_A([01]{5})_(cpp\w+?|gnupp\w+?)_(gpp|clangpp)_(nd|dbg)_std(size_t|uint8_t|uint16_t|uint32_t)((?:_\w+)*)$', k)
+        if not m or m.group(9):
+            return None
+        return Config(m.group(1), int(m.group(2)), int(m.group(3)), m.group(4), m.group(5).replace('p', '+'), m.group(6).replace('p', '+').replace('g++', 'g++'),
+                      m.group(7) == 'nd', 'std::' + m.group(8))
+
     def flags(self):
         f = ['-std=' + self.std, '-O1', '-g', '-fsanitize=address,undefined', '-fno-sanitize-recover=all', '-I' + os.path.join(REPO, 'source/include'),
              '-DCFG_E=%d' % FLAVOURS[self.fl], '-DCFG_N=%d' % self.N, '-DCFG_M=%d' % self.M, '-DCFG_A=0b' + self.abits, '-DCFG_ST=' + self.st,
